@@ -22,6 +22,12 @@
      putvar x   put $x             echo       echo e            deffn      fn f { put called }
      call       f                  del x      del x             fail       fail boom
      pragma     pragma unknown-command = disallow               ext        an unknown command
+     extreg     mod:fn of a module that is registered on the Evaler but not imported (math:floor 1)
+     extunreg   mod:fn of a module nobody registered (nomod:fn foo)
+                -- both are unknown commands like ext (external unless the pragma disallows them): the
+                   static check knows the list of registered modules (for its `use mod` autofix),
+                   evaluation does not; CheckAgrees requires the same verdict from both
+     (defects modvar-registered / modvar-unregistered: $math:x / $nomod:x, compile errors in any context)
      bad d      an injected defect d \in Defects (always a static error, class DefectClass(d))
    putvar/set/del of a variable that is not declared at that point of the chunk, and call/ext
    under the disallow pragma, are static defects by context: the predicate is computed by Compile.
@@ -42,7 +48,7 @@ ParseDefects   == {"unclosed-quote", "unclosed-paren", "unclosed-list", "unclose
 CompileDefects == {"use-undeclared", "set-undeclared", "del-undeclared", "if-no-body",
                    "try-alone", "try-else-no-catch", "var-qualified", "tmp-top-level",
                    "del-non-local", "fn-no-body", "while-no-body", "for-no-body",
-                   "set-no-rhs", "use-undeclared-in-fn"}
+                   "set-no-rhs", "use-undeclared-in-fn", "modvar-registered", "modvar-unregistered"}
 Defects == ParseDefects \cup CompileDefects
 DefectClass(d) == IF d \in ParseDefects THEN "parse" ELSE "compile"
 
@@ -65,7 +71,7 @@ CompileFrom(c, i, declared, fdecl, strict, acc) ==
       [] s.s = "deffn"  -> CompileFrom(c, i + 1, declared, TRUE, strict, acc)
       [] s.s = "call"   -> CompileFrom(c, i + 1, declared, fdecl, strict,
                                        IF fdecl \/ ~strict THEN acc ELSE [acc EXCEPT !.compile = TRUE])
-      [] s.s = "ext"    -> CompileFrom(c, i + 1, declared, fdecl, strict,
+      [] s.s \in {"ext", "extreg", "extunreg"} -> CompileFrom(c, i + 1, declared, fdecl, strict,
                                        IF ~strict THEN acc ELSE [acc EXCEPT !.compile = TRUE])
       [] s.s = "pragma" -> CompileFrom(c, i + 1, declared, fdecl, TRUE, acc)
       [] s.s = "bad"    -> CompileFrom(c, i + 1, declared, fdecl, strict,
@@ -104,7 +110,7 @@ ExecFrom(c, i, r, strict) ==
                              ELSE ExecFrom(c, i + 1, [r EXCEPT !.thrown = TRUE], strict)   \* external command not found
         [] s.s = "del"    -> ExecFrom(c, i + 1, [r EXCEPT !.st.val[s.x] = "undef"], strict)
         [] s.s = "fail"   -> ExecFrom(c, i + 1, [r EXCEPT !.thrown = TRUE], strict)
-        [] s.s = "ext"    -> ExecFrom(c, i + 1, [r EXCEPT !.thrown = TRUE], strict)
+        [] s.s \in {"ext", "extreg", "extunreg"} -> ExecFrom(c, i + 1, [r EXCEPT !.thrown = TRUE], strict)
         [] OTHER          -> ExecFrom(c, i + 1, r, strict)
 
 \* ---------------------------------------------------------------- the actions
